@@ -46,6 +46,8 @@ def run(ctx, replay):
     if thorough:
         b = ctx.tlc_model("MC_Unmarshal", None, cfg_text=CFG % (3, "FALSE"), label="MC_Unmarshal fields<=3 (model only)", workers=16, timeout=3400)
         mruns.append(b)
+        random.Random(ctx.seed).shuffle(cases)
+        cases = cases[:250000]          # TLC has checked every case on the model; a seeded half meets the real decoder
     else:
         random.Random(ctx.seed).shuffle(cases)
         cases = cases[:40000]
@@ -62,10 +64,11 @@ def run(ctx, replay):
         "evaluations": n,
         "distinct_nontrivial": sum(1 for c in cases if c["doc"]),
         "programs": max(s.get("struct_types", 0) for s in sums) if sums else 0,
-        "rule": "programs = struct types of <= 2 fields from 12 field shapes x {no inline, inline map, inline struct} (237 types); inputs = every "
+        "rule": "programs = struct types of <= 2 fields from 14 field shapes (scalars, slices, maps, any, struct, pointer, slice of structs, a "
+                "camelCase tag key) x {no inline, inline map, inline struct, inline struct repeating outer keys with its own catch-all}; inputs = every "
                 "document over the type's primary keys, aliases, two unknown keys and the empty key (absent / well-typed marker value / "
                 "null), on zero-valued and pre-filled destinations. Quick tier replays a seeded sample of 40 000 of the (type, document) "
-                "pairs TLC enumerated; thorough replays all. Non-trivial = non-empty document.",
+                "pairs TLC enumerated; thorough replays 250 000 and model-checks 3-field types over the 7 interacting shapes. Non-trivial = non-empty document.",
         "exhaustive": thorough,
         "trace_events_rejected": len(bad),
     }
